@@ -125,7 +125,10 @@ impl View2 {
         pos: Point2<f32>,
     ) -> bool {
         let next_center = h.center(pos);
-        let changed = next_center != self.center;
+        let changed = next_center
+            .iter()
+            .zip(self.center.iter())
+            .any(|(a, b)| bits_differ(*a, *b));
         self.center = next_center;
         changed
     }
@@ -134,6 +137,7 @@ impl View2 {
     ///
     /// Returns `true` if the view has changed, `false` otherwise
     pub fn zoom(&mut self, amount: f32, pos: Option<Point2<f32>>) -> bool {
+        let prev = *self;
         match pos {
             Some(before) => {
                 let pos_before = self.transform_point(&before);
@@ -145,8 +149,22 @@ impl View2 {
                 self.scale *= amount;
             }
         }
-        amount != 1.0
+        bits_differ(self.scale, prev.scale)
+            || self
+                .center
+                .iter()
+                .zip(prev.center.iter())
+                .any(|(a, b)| bits_differ(*a, *b))
     }
+}
+
+/// Checks whether two values differ bitwise
+///
+/// Used for the "view has changed" flags, so that an unchanged `NaN` (or a
+/// zoom that leaves a zero / infinite scale as it was) is not reported as a
+/// change.
+fn bits_differ(a: f32, b: f32) -> bool {
+    a.to_bits() != b.to_bits()
 }
 
 /// Object providing a view-to-model transform in 2D
@@ -257,7 +275,10 @@ impl View3 {
         pos: Point3<f32>,
     ) -> bool {
         let next_center = h.center(pos);
-        let changed = next_center != self.center;
+        let changed = next_center
+            .iter()
+            .zip(self.center.iter())
+            .any(|(a, b)| bits_differ(*a, *b));
         self.center = next_center;
         changed
     }
@@ -266,6 +287,7 @@ impl View3 {
     ///
     /// Returns `true` if the view has changed, `false` otherwise
     pub fn zoom(&mut self, amount: f32, pos: Option<Point3<f32>>) -> bool {
+        let prev = *self;
         match pos {
             Some(before) => {
                 let pos_before = self.transform_point(&before);
@@ -277,7 +299,12 @@ impl View3 {
                 self.scale *= amount;
             }
         }
-        amount != 1.0
+        bits_differ(self.scale, prev.scale)
+            || self
+                .center
+                .iter()
+                .zip(prev.center.iter())
+                .any(|(a, b)| bits_differ(*a, *b))
     }
 
     /// Begins a rotation operation, given a point in world space
@@ -295,7 +322,8 @@ impl View3 {
     pub fn rotate(&mut self, h: &RotateHandle, pos: Point3<f32>) -> bool {
         let next_yaw = h.yaw(pos.x);
         let next_pitch = h.pitch(pos.y);
-        let changed = (next_yaw != self.yaw) || (next_pitch != self.pitch);
+        let changed = bits_differ(next_yaw, self.yaw)
+            || bits_differ(next_pitch, self.pitch);
         self.yaw = next_yaw;
         self.pitch = next_pitch;
         changed
